@@ -61,6 +61,43 @@ def sampled_rules(rng, modules, n, max_batch=3, strict_bias=0.8):
     return out
 
 
+def package_init_specs(rng, n, partners=False):
+    """Worlds shaped like scanned trees: EVERY package has an '__init__' module, and those modules import, and are
+    imported by, modules of other packages.  Rules speak about 'sub modules of X' for such packages X: X.__init__ is a
+    sub module of X like any other.  Names are rendered as they are."""
+    from harness.names import anc
+    specs = []
+    for _ in range(n):
+        w = random_world(rng, n_modules=rng.randint(6, 14), n_imports=rng.randint(2, 14))
+        inner = sorted({m[:i] for m in w.modules for i in range(1, len(m))})
+        inits = [p + ("__init__",) for p in inner if p + ("__init__",) not in set(w.modules)]
+        mods = sorted(set(w.modules) | set(inits))
+        imps = set(w.imports)
+        for im in inits:
+            outside = [m for m in mods if not anc(im[:-1], m) and not anc(m, im)]
+            for t in rng.sample(outside, min(len(outside), rng.randint(0, 2))):
+                imps.add((im, t) if rng.random() < 0.6 else (t, im))
+        w2 = World(mods, sorted(imps))
+        ep = RuleEpisode(w2, render="ident")
+        for p in rng.sample(inner, min(4, len(inner))):
+            others = [m for m in mods if not anc(p, m) and not anc(m, p)]
+            if not others:
+                continue
+            for _k in range(6):
+                y = rng.choice(others)
+                sub, obj = [F("sub", p)], [F(rng.choice(["named", "sub"]), y)]
+                if rng.random() < 0.5:
+                    sub, obj = obj, sub
+                r = (mk_rule("should_not", rng.choice(DIRS), False, [F("sub", p)], [], any_=True) if rng.random() < 0.15
+                     else mk_rule(rng.choice(VERBS), rng.choice(DIRS), rng.random() < 0.5, sub, obj))
+                if partners:
+                    ep.with_partners(r)
+                else:
+                    ep.eval(r)
+        specs.append(ep.spec)
+    return specs
+
+
 def run_and_validate(specs, procs=16):
     episodes = runner.run_specs(specs, procs)
     tr = trace.validate(episodes, "Trace_Rules.tla", "Trace_Rules.cfg", procs=procs)
